@@ -23,7 +23,7 @@ TOPICS = [["a"], ["b"], ["a", "b"], ["a", "a"], ["b", "a"], ["a", "b", "c"], ["a
 FILTERS = [["a"], ["b"], ["a", "b"], ["a", "+"], ["+", "b"], ["#"], ["a", "#"], ["+", "#"], ["+"], ["a", "b", "#"],
            ["+", "+"], ["$a", "#"], ["a", "b", "c"], ["b", "#"]]
 SHARED = [["$share", "g", "a", "+"], ["$share", "g", "#"], ["$share", "h", "a", "b"], ["$share", "g", "a", "#"],
-          ["$share", "h", "+", "b"]]
+          ["$share", "h", "+", "b"], ["$share", "h", "a", "+"], ["$share", "h", "#"]]
 
 
 class Gen:
@@ -117,6 +117,8 @@ class Gen:
             return
         have = self.subs.get(c) or []
         f = self.r.choice(have) if have and self.r.random() < 0.8 else self.r.choice(self.p.get("filters", FILTERS))
+        if not (have and f in have) and self.p.get("shared") and self.r.random() < max(self.p["shared"], 0.3):
+            f = self.r.choice(self.p.get("shared_filters", SHARED))     # a share filter the client does not hold (perhaps another group's)
         self.ops.append(op("unsubscribe", k=k, pid=self.pid(k), filters=[dict(f=f, qos=0, nl=False, rap=False, rh=0)]))
 
     def publish(self, c, **kw):
@@ -197,6 +199,34 @@ def routing_history(rng, prof):
             g.disconnect(c)
         elif a == "tick":
             g.ops.append(op("tick", kind=rng.choice(prof.get("ticks", ["clients"])), dt=rng.choice(prof.get("dts", [0, 100]))))
+        elif a == "dup_publish":
+            # retransmission (DUP) of a QoS 2 PUBLISH whose PUBREL has not been sent yet
+            cands = [o for o in g.ops if o["op"] == "publish" and o.get("qos") == 2 and g.conn.get(next((cc for cc, kk in g.conn.items() if kk == o["k"]), None)) == o["k"]
+                     and not any(r["op"] == "pubrel" and r["k"] == o["k"] and r["pid"] == o["pid"] for r in g.ops)]
+            if cands:
+                o = dict(rng.choice(cands), dup=True)
+                g.ops.append(o)
+                if rng.random() < 0.5:
+                    g.ops.append(op("pubrel", k=o["k"], pid=o["pid"]))
+        elif a == "resub_resume":
+            # a client changes the options of a subscription it holds, then resumes its session on a new connection
+            have = [x for x in clients if g.subs.get(x) and g.k(x)]
+            if have:
+                c = rng.choice(have)
+                k = g.k(c)
+                f = rng.choice(g.subs[c])
+                so = dict(f=f, qos=rng.choice(prof.get("sub_qos", [0, 1, 2])), nl=False, rap=False, rh=0)
+                if g.ver[k] == 5:
+                    so["rap"] = rng.random() < 0.5
+                o = op("subscribe", k=k, pid=g.pid(k), filters=[so])
+                if g.ver[k] == 5 and rng.random() < 0.7:
+                    o["subid"] = rng.randint(1, 9)
+                g.ops.append(o)
+                if rng.random() < 0.5:
+                    g.ops.append(op("netdrop", k=k))
+                    del g.conn[c]
+                g.connect(c, clean=False, v=g.ver[k], sei=300)
+                g.publish(rng.choice(clients))
         elif a == "resub_clean":
             # a client that holds subscriptions comes back with Clean Start 1 (live takeover or after a drop) and
             # subscribes to one of its old filters again
@@ -349,6 +379,19 @@ def qos_history(rng, prof):
             g.ops.append(op("publish", k=k, t=["z"], m=g.msg(), qos=rng.choice([1, 2]), pid=rng.randint(1, prof.get("collide_max", 3))))
         elif a == "tick":
             g.ops.append(op("tick", kind=rng.choice(prof.get("ticks", ["inflight"])), dt=rng.choice(prof.get("dts", [0, 50]))))
+        elif a == "stall_burst":
+            # a subscriber stops reading for a while: messages of different sizes pile up in the broker's queue for it
+            c = rng.choice(subs)
+            k, pk = g.k(c), g.k(pubs[0])
+            if k and pk:
+                g.ops.append(op("stall", k=k, kind="on"))
+                for _ in range(rng.randint(3, 5)):
+                    o = op("publish", k=pk, t=topics[0], m=g.msg(), qos=rng.choice(prof.get("burst_qos", [0])), pad=rng.choice(prof.get("burst_pads", [0, 0, 30, 3000])))
+                    if o["qos"] > 0:
+                        o["pid"] = client_pid(pk)
+                    g.ops.append(o)
+                g.ops.append(op("stall", k=k, kind="off"))
+                g.ops.append(op("ping", k=k))
     if prof.get("drain"):
         for c in subs + pubs:
             if not g.k(c):
@@ -418,12 +461,12 @@ def session_history(rng, prof):
             g.ops.append(op("raw", k=k, hex="f000"))     # reserved packet type 15 for v3/4, bad AUTH for v5: protocol error
             del g.conn[c]
         elif a == "tick_clients":
-            g.ops.append(op("tick", kind="clients", dt=rng.choice(prof.get("dts", [0, 10, 40, 120, 400]))))
+            g.ops.append(op("tick", kind="clients", dt=rng.choice(prof.get("dts", [0, 10, 40, 70, 120, 250, 400]))))
         elif a == "tick_wills":
             g.ops.append(op("tick", kind="wills", dt=rng.choice(prof.get("wdts", [0, 10, 30, 60]))))
         elif a == "expiry_round":
             # housekeeping as the event loop runs it: sessions, then wills, and the wills again one tick later
-            dt = rng.choice([40, 120, 400])
+            dt = rng.choice([40, 70, 120, 250, 400])
             g.ops.append(op("tick", kind="clients", dt=dt))
             g.ops.append(op("tick", kind="wills", dt=dt))
             g.ops.append(op("tick", kind="wills", dt=dt + 1))
